@@ -172,3 +172,29 @@ Definition vtarget (st : vstate) (o : vop) : option Z :=
   | VRestore vid => match find_version vid (v_tbl st) with Some ver => Some (v_master ver) | None => None end
   | VCreate _ => None
   end.
+
+(* ------------------------------------------------------------------ *)
+(* Masters that live on a connection other than the class's own (created /
+   fetched with connection=..., or through a Transaction), while the class's
+   own connection points at another database (`decoy` here) with masters of
+   the same ids.  Everything goes to the instance's connection: the snapshot
+   (rowUpdate passes instance._connection), master.versions
+   (Versioning.__get__ passes obj._connection) and, since 61db062,
+   Version.restore() (it fetches the master on the version's connection).
+   The class's own database is never touched. *)
+Record wstate := { w_main : vstate; w_decoy : vstate }.
+
+Definition wstep (foreign : bool) (ws : wstate) (o : vop) : wstate * voutcome :=
+  let x := vstep (w_main ws) o in
+  ({| w_main := fst x; w_decoy := w_decoy ws |}, snd x).
+Definition wfinal (foreign : bool) (ws : wstate) (ops : list vop) : wstate :=
+  fold_left (fun s o => fst (wstep foreign s o)) ops ws.
+
+(* the other database of the correspondence runs: three masters with the ids
+   the histories use, each updated once *)
+Definition decoy_ops : list vop :=
+  [VCreate [(CA, VInt 101)]; VCreate [(CA, VInt 102)]; VCreate [(CA, VInt 103)];
+   VAssign 1 CB (VStr [100%N]); VAssign 2 CB (VStr [100%N]); VAssign 3 CB (VStr [100%N])].
+Definition vdecoy : vstate := vfinal vinit decoy_ops.
+Definition winit : wstate := {| w_main := vinit; w_decoy := vdecoy |}.
+
